@@ -30,5 +30,9 @@ def run(rep, tier):
     rep.rule("R-EVT-CURR", "the buffer holding the event values at the step end is not overwritten (by an evaluation at another point, or element-wise) before every per-event read of the current value and the copy into prev_event")
     H.r_evt_curr_stable(rep, hc)
     acc_rule(rep, f, rule="R-SOLOUT-ONCE")
+    rep.rule("R-CONFIG-FRAME", "each &mut self setter of EventConfig writes exactly one of the two settings (direction filter, terminal count) and leaves the other as configured")
+    H.r_config_frame(rep, f)
+    rep.rule("R-DIR-FROM", "the integer conversion into Direction selects by sign (exact evaluation at the function's literals, their neighbours and the i32 range ends)")
+    H.r_dir_from(rep, f)
     rep.explanation = ("Largely decided structurally: complete truth table of the sign-change test, previous-value bookkeeping on all paths, "
                        "exactly one record per crossing per step, every accepted step reaches the handler once. Not decided: root location accuracy.")
